@@ -27,6 +27,10 @@ extern int vf_exc;          /* 0 = no exception in flight; VF_EXC_* otherwise (e
 #else
 #define VF_CANARY_POINT ((void)0)
 #endif
+vf_str nondet_vf_str(void);
+#ifndef VF_STRLIT
+#define VF_STRLIT(s) nondet_vf_str() /* string literal: an arbitrary id (string contents are outside the subset) */
+#endif
 '''
 
 SEQ = r'''
@@ -59,11 +63,18 @@ static inline %(T)s* vf_seq_%(G)s_erase(struct vf_seq_%(G)s* s, %(T)s* it)
 {
   size_t i = (size_t)(it - (s->d + s->h));
   __CPROVER_assert(i < s->n, "vf_seq erase in range");
+#ifdef VF_ERASE_EXACT
+  /* exact variant (a spec defines VF_ERASE_EXACT = largest sequence length it erases from): unrolled text, no
+     loop, so the positions of the surviving elements are known to the caller; longer sequences are refused */
+  __CPROVER_assert(s->n <= VF_ERASE_EXACT, "vf_seq erase: length within VF_ERASE_EXACT");
+/*ERASE_UNROLLED*/
+#else
   for (size_t j = i; j + 1 < s->n; j++)
     __CPROVER_assigns(j, __CPROVER_object_whole(s->d))
     __CPROVER_loop_invariant(i <= j && j < s->n)
     __CPROVER_decreases(s->n - j)
   { s->d[s->h + j] = s->d[s->h + j + 1]; }
+#endif
   s->n--;
   return it;
 }
@@ -84,6 +95,14 @@ MINMAX = {
 }
 
 PAIR = "struct vf_pair_%(G)s { %(A)s first; %(B)s second; };\n"
+# exact erase: the shift of the elements behind position i, unrolled as text (a loop without contract inside a function
+# instrumented by dfcc fails its own frame check on the loop counter)
+ERASE_MAX = 16
+ERASE_UNROLLED = "#if VF_ERASE_EXACT > %d\n#error \"VF_ERASE_EXACT too large for the unrolled erase model\"\n#endif\n" % ERASE_MAX + \
+    "".join("#if VF_ERASE_EXACT > %d\n  if (i <= %d && %d < s->n) s->d[s->h + %d] = s->d[s->h + %d];\n#endif\n" %
+            (j + 1, j, j + 1, j, j + 1) for j in range(ERASE_MAX - 1))
+SEQ = SEQ.replace("/*ERASE_UNROLLED*/\n", ERASE_UNROLLED)
+
 OPT = "struct vf_opt_%(G)s { _Bool has; %(T)s value; };\n"
 
 SET = r'''
